@@ -19,6 +19,9 @@ FOCUSES = [
     ("MC_Loops", "loops-pairs", {"Variant": '"pairs"'}, 2, 3),
     ("MC_Loops", "loops-triples", {"Variant": '"triples"'}, 3, 4),
     ("MC_Bool", "bool", {}, 1, 2),
+    ("MC_Sites", "sites", {}, 3, 3),
+    ("MC_Exprs", "exprs", {}, 1, 2),
+    ("MC_Lambda", "lambda", {}, 4, 4),
     ("MC_Loops", "loops-nest", {"Variant": '"nest"'}, 2, 2),
     ("MC_Scopes", "scopes", {}, 2, 3),
     ("MC_Trim", "trim-markers", {"Variant": '"markers"'}, 3, 4),
